@@ -22,9 +22,17 @@ U == Traces[tr].u
 Tok(e, t) == IF \E i \in DOMAIN e.metas : e.metas[i][1] = t
              THEN (CHOOSE x \in SetOf(e.metas) : x[1] = t)[2] ELSE "none"
 
+FailOf(e) == SetOf(e.fail)
+(* a call that raised (continue_on_failure=False and a task failed) stops at a schedule-dependent point: what it *)
+(* stored is taken from what is observable afterwards (entries with their stored value and metadata)             *)
+Resync(e) == [t \in TasksOf(U) |->
+                IF \E i \in DOMAIN e.entryvals : e.entryvals[i][1] = t
+                THEN LET x == CHOOSE y \in SetOf(e.entryvals) : y[1] = t IN [val |-> x[2], meta |-> x[3]]
+                ELSE <<>>]
 After(e) ==
   IF e.op = "run"
-  THEN [store |-> StoreAfterRun(U, ms.store, e.req, e.bust, ms.clock + 1, LAMBDA t : Tok(e, t)),
+  THEN [store |-> IF e.raised # "" THEN Resync(e)
+                  ELSE StoreAfterRunF(U, ms.store, e.req, e.bust, ms.clock + 1, LAMBDA t : Tok(e, t), FailOf(e)),
         clock |-> ms.clock + 1]
   ELSE [store |-> StoreAfterUncache(U, ms.store, SetOf(e.ts)), clock |-> ms.clock]
 
@@ -42,31 +50,37 @@ TSpec == TInit /\ [][TNext]_tvars
 -----------------------------------------------------------------------------
 (* formulas over one call e = Ops[l + 1], the model state before (ms) and after (ms') *)
 E == Ops[l + 1]
-IsRun == E.op = "run"
+IsRun == E.op = "run" /\ E.raised = ""        \* a call that returned
+IsAnyRun == E.op = "run"
 Ex == Executed(U, ms.store, E.req, E.bust)
 Ld == Loaded(U, ms.store, E.req, E.bust)
 NoDup(s) == Cardinality(SetOf(s)) = Len(s)
 
-C06_NoRunOnHit == IsRun => SetOf(E.exec) \cap Ld = {}
+C06_NoRunOnHit == IsAnyRun => SetOf(E.exec) \cap Ld = {}
 C06_LoadReturnsStored ==
-  IsRun => /\ E.ret_keys = Dedup(E.req)
+  IsRun => /\ E.ret_keys = RetKeys(U, ms.store, E.req, E.bust, FailOf(E))
            /\ Len(E.ret_vals) = Len(E.ret_keys)
            /\ \A i \in DOMAIN E.ret_keys : E.ret_vals[i] = ValOf(U, ms.store, E.bust, ms.clock + 1, E.ret_keys[i])
 C06_MetaPreserved == IsRun => \A t \in Ld : Tok(E, t) # "none" => Tok(E, t) = ms.store[t].meta
-C06_CachedAfterRun == IsRun => \A t \in Ex : CacheableIn(U, t) => t \in SetOf(E.cached)
+C06_CachedAfterRun == IsRun => \A t \in OkExecuted(U, ms.store, E.req, E.bust, FailOf(E)) : CacheableIn(U, t) => t \in SetOf(E.cached)
 C08_RunExecutesWhatItNeeds == IsRun => SetOf(E.exec) = Ex /\ SetOf(E.loads) = Ld /\ NoDup(E.exec) /\ NoDup(E.loads)
+(* C03 over several calls on the same Lab: what is executed / loaded in each call is exactly what the map says is needed *)
+C03_ExecutesExactlyWhatIsNeeded == IsRun => SetOf(E.exec) = Ex /\ SetOf(E.loads) = Ld /\ NoDup(E.exec) /\ NoDup(E.loads)
+C03_NoRunOnHit == IsAnyRun => SetOf(E.exec) \cap Ld = {}
 C08_MapEvolution == SetOf(E.cached) = {t \in TasksOf(U) : Has(ms'.store, t)}
 C08_EntryValues == \A i \in DOMAIN E.entryvals :
-                      LET t == E.entryvals[i][1] IN Has(ms'.store, t) /\ E.entryvals[i][2] = ms'.store[t].val
+                      LET t == E.entryvals[i][1] IN
+                      Has(ms'.store, t) /\ E.entryvals[i][2] = ms'.store[t].val /\ E.entryvals[i][3] = ms'.store[t].meta
 C08_NothingElseStored == E.nkeys = Cardinality({t \in TasksOf(U) : Has(ms'.store, t)})
 C09_Listing == \A y \in DOMAIN E.listed :
                  /\ SetOf(E.listed[y]) = {t \in TasksOf(U) : Has(ms'.store, t) /\ U.typ[t] = y}
                  /\ NoDup(E.listed[y])
 
-Names == {"C06_NoRunOnHit", "C06_LoadReturnsStored", "C06_MetaPreserved", "C06_CachedAfterRun",
+Names == {"C03_ExecutesExactlyWhatIsNeeded", "C03_NoRunOnHit", "C06_NoRunOnHit", "C06_LoadReturnsStored", "C06_MetaPreserved", "C06_CachedAfterRun",
           "C08_RunExecutesWhatItNeeds", "C08_MapEvolution", "C08_EntryValues", "C08_NothingElseStored", "C09_Listing"}
 Holds(c) ==
-  CASE c = "C06_NoRunOnHit" -> C06_NoRunOnHit [] c = "C06_LoadReturnsStored" -> C06_LoadReturnsStored
+  CASE c = "C03_ExecutesExactlyWhatIsNeeded" -> C03_ExecutesExactlyWhatIsNeeded [] c = "C03_NoRunOnHit" -> C03_NoRunOnHit
+    [] c = "C06_NoRunOnHit" -> C06_NoRunOnHit [] c = "C06_LoadReturnsStored" -> C06_LoadReturnsStored
     [] c = "C06_MetaPreserved" -> C06_MetaPreserved [] c = "C06_CachedAfterRun" -> C06_CachedAfterRun
     [] c = "C08_RunExecutesWhatItNeeds" -> C08_RunExecutesWhatItNeeds [] c = "C08_MapEvolution" -> C08_MapEvolution
     [] c = "C08_EntryValues" -> C08_EntryValues [] c = "C08_NothingElseStored" -> C08_NothingElseStored
